@@ -521,7 +521,7 @@ fn ooq_sack_k5_nothing_out_of_order() {
     kani::cover!(true, "end of harness reachable (assumptions satisfiable, no unconditional failure)");
 }
 
-// @verif id=OOQ.sack.c props=C04 tier=quick
+// @verif id=OOQ.sack.c props=C04,C09 tier=quick
 // @functions OutOfOrderQueue::selective_ack, SelectiveAck::new
 // @bounds K = 5, pattern 0b11101 (filled_front = 1, hole at slot 1, three held)
 // @asserts bits 0..=2 set, nothing else
